@@ -36,6 +36,8 @@ THEOREMS = [
     "Verif.C04.to_step_ceil_largest_multiple",
     "Verif.C04.to_answers_iff",
     "Verif.C04.to_freq_is_to",
+    "Verif.C04.step_of_exact_freq",
+    "Verif.C04.to_freq_eq_by",
     "Verif.C04.to_window_spec",
     "Verif.C04.F3_witness",
     "Verif.C04.like_same_timestamps",
@@ -667,6 +669,14 @@ def _call(case):
         f2 = {"add": lambda x, y: x + y, "sub": lambda x, y: x - y, "mul": lambda x, y: x * y, "div": lambda x, y: x / y}[case["operator2"]]
         r = f2(f1(a, b), c)
         return ["ok " + show(r.timestamps, r.data)]
+    if k == "step":
+        # the conversion alone, in Python's own double arithmetic (the expression the code evaluates)
+        fv = freq_value(case["freq_repr"])
+        try:
+            t = str(int(1e9 / fv))
+        except Exception as e:
+            t = errname(e)
+        return [f"ok {t} {t}"]
     if k == "byby":
         s = build(case["src"])
         _warm(lambda: s.downsampled_by(case["k1"], reduce=_other_reduce(case["reduce"])).downsampled_by(case["k2"], reduce=_other_reduce(case["reduce"])))
@@ -758,6 +768,8 @@ def ops(case):
         return [f"c04.ariths {case['operator']} {1 if case['reversed'] else 0} {x.numerator}/{x.denominator} {src_tokens(case['a'])}"]
     if k == "arith3":
         return [f"c04.arith3 {case['operator']} {case['operator2']} {src_tokens(case['a'])} {src_tokens(case['b'])} {src_tokens(case['c'])}"]
+    if k == "step":
+        return [f"c04.step {enc_float(float(freq_value(case['freq_repr'])))}"]
     if k == "byby":
         return [f"c04.byby {src_tokens(case['src'])} {case['reduce']} {case['k1']} {case['k2']}"]
     if k == "getitem":
@@ -780,6 +792,14 @@ def split_answer(ans):
 
 
 def agree(case, i, ia, ma):
+    if case["op"] == "step":
+        ti, tm = ia.split(" "), ma.split(" ")
+        if len(ti) != 3 or len(tm) != 3:
+            return False
+        # the exact model has no nan / inf / overflow (they have no rational value): only the double's answer counts there
+        fv = freq_value(case["freq_repr"])
+        no_rational = isinstance(fv, float) and not math.isfinite(fv) or not ti[2].lstrip("-").isdigit() or abs(int(ti[2])) >= 2**62
+        return (ti[1] == tm[1] or tm[1] == "outside" and abs(int(ti[1])) >= 2**62) and (tm[2] == ti[2] or tm[2] == "outside" and no_rational)
     if not in_model(case):
         return True  # judged by the oracle only (documented refusal)
     if case["op"] == "tobylong" and ops(case)[i] == "c04.outside-the-model":
@@ -1197,6 +1217,17 @@ def oracle(case, ia):
         if not samples_close(parse_samples(toks[0]), exp):
             return f"arith ({k}): expected element-wise on the same timestamps {str([(t, str(v)) for t, v in exp])[:300]}, got {toks[0][:300]}"
         return None
+    if k == "step":
+        # the documented conversion Hz -> ns: a positive finite frequency f gives the whole number of nanoseconds in 1/f
+        fv = freq_value(case["freq_repr"])
+        t = ans.split(" ")[1]
+        if isinstance(fv, float) and not math.isfinite(fv) or fv == 0:
+            return None
+        if fv > 0 and t.isdigit():
+            exact = Fraction(10**9) / Fraction(fv)
+            if abs(int(t) - exact) > 1 + exact / 2**52:
+                return f"step: int(1e9 / {fv!r}) = {t}, the period is {float(exact)!r} ns"
+        return None
     if k == "byby":
         return oracle_byby(case, ans)
     if k == "getitem":
@@ -1252,6 +1283,8 @@ def nontrivial(case, ia):
         return case["k"] >= 2 and len(parse_samples(toks[1])) >= 1
     if k in ("arith", "neg", "ariths", "arith3"):
         return len(parse_samples(toks[0])) >= 1
+    if k == "step":
+        return toks[0].isdigit() and int(toks[0]) >= 1
     if k == "byby":
         return case["k1"] >= 2 and case["k2"] >= 2 and len(parse_samples(toks[1])) >= 1
     if k == "getitem":
@@ -1766,6 +1799,18 @@ def _cases(tier, rng):
             wins = list(itertools.product(edges, edges))
             for i, ws in enumerate(itertools.product(wins, repeat=3)):
                 yield {"stream": "small-scope", "op": "over", "src": src, "reduce": "median", "where": "center" if i % 2 else "left", "ranges": [list(w) for w in ws]}
+    # the Hz -> ns conversion alone: every period s <= 300 (quick) / 3000 from the frequencies 1e9/s, its two neighbours,
+    # 1e9/(s + 1/2), the integer frequencies round(1e9/s) +- 1, and the periods of real recordings
+    periods = list(range(1, 301 if quick else 3001)) + [12800, 64000, 12800 * 7, 10**6, 10**9, 2**40 + 1, 10**15 + 3, 2**53 - 1, 2**53 + 2, 2**61]
+    for s_ in periods:
+        fs = [1e9 / s_, float(np.nextafter(1e9 / s_, 0)), float(np.nextafter(1e9 / s_, np.inf)), 1e9 / (s_ + 0.5)]
+        reps = [repr(f_) for f_ in fs if f_ > 0]
+        if 10**9 // s_ >= 1:
+            reps += [f"int:{10**9 // s_}", f"int:{10**9 // s_ + 1}"]
+        for rep in reps:
+            yield {"stream": "small-scope", "op": "step", "freq_repr": rep}
+    for rep in ("0", "-0.0", "nan", "inf", "-inf", "-2e7", "int:0", "int:-5", "1e300", "5e-324", "1e-12", "3e-10", "0.3", "1e9", "1000000000.0000001", "2e9", "int:3", "int:7"):
+        yield {"stream": "small-scope", "op": "step", "freq_repr": rep}
     # downsampled_by twice: every n <= 14 (quick 12), k1, k2 <= 4
     idx = 0
     for n in range(0, 13 if quick else 15):
@@ -1852,7 +1897,7 @@ def _cases(tier, rng):
     r = r_random
     for i in range(N):
         sub = r.fork(i)
-        kind = sub.choice(["over", "over", "to", "to", "toby", "by", "like", "like", "like-arbitrary", "arith", "getitem", "tof-any", "byby"])
+        kind = sub.choice(["over", "over", "to", "to", "toby", "by", "like", "like", "like-arbitrary", "arith", "getitem", "tof-any", "byby", "step"])
         red = sub.choice(REDUCERS)
         where = sub.choice(["center", "left"])
         base = {"stream": "random", "subseed": i}
@@ -1882,6 +1927,14 @@ def _cases(tier, rng):
             if f is None:
                 continue
             base.update({"op": "to", "src": src, "reduce": red, "where": where, "method": method, "freq": f})
+        elif kind == "step":
+            fq = sub.loguniform(1e-6, 1e12)
+            if sub.chance(0.3):
+                fq = float(sub.randint(1, 10**9))
+            if sub.chance(0.1):
+                fq = -fq
+            yield {"stream": "random", "subseed": i, "op": "step", "freq_repr": repr(fq)}
+            continue
         elif kind == "byby":
             src = rand_cont(sub, nmax=60)
             n = len(src["vals"])
@@ -1996,6 +2049,9 @@ def extra_coverage(results):
     longest = 0
     for r in results:
         c = r["case"]
+        if c["op"] == "step":
+            kinds["step"] = kinds.get("step", 0) + 1
+            continue
         key = c["op"] + "/" + (c.get("src") or c.get("a"))["kind"]
         kinds[key] = kinds.get(key, 0) + 1
         a = r["impl"][0]
